@@ -675,6 +675,13 @@ class Tahoe2ServerSelector(log.PrefixingLogMixin):
         # include any pre-existing shares on read-only servers .. but
         # we *do* want to count those shares towards total happiness.
 
+        # A later iteration re-plans every share, so a share allocated on
+        # one server in an earlier iteration may since have been allocated
+        # on another one as well (and a server we gave up on after the
+        # timeout may still have answered, and allocated, later). Each
+        # share number must end up with exactly one of the servers we use.
+        self._drop_duplicate_allocations(trackers)
+
         # no more servers. If we haven't placed enough shares, we fail.
         # XXX note sometimes we're not running the loop at least once,
         # and so 'merged' must be (re-)computed here.
@@ -718,6 +725,34 @@ class Tahoe2ServerSelector(log.PrefixingLogMixin):
                   pretty_print_shnum_to_servers(self.preexisting_shares))
         self.log(msg, level=log.OPERATIONAL)
         defer.returnValue((self.use_trackers, self.peer_selector.get_sharemap_of_preexisting_shares()))
+
+    def _drop_duplicate_allocations(self, trackers):
+        """
+        If a share number is allocated on more than one server, keep the
+        allocation on the server that the current plan names (else the
+        first one) and abort the others. Servers that still hold
+        allocations afterwards are the ones we will upload to.
+        """
+        holders = {} # shnum -> [ServerTracker]
+        for tracker in trackers:
+            for shnum in tracker.buckets:
+                holders.setdefault(shnum, []).append(tracker)
+        placements = self._share_placements or {}
+        for shnum, holding in holders.items():
+            if len(holding) < 2:
+                continue
+            keep = holding[0]
+            for tracker in holding:
+                if tracker.get_serverid() == placements.get(shnum):
+                    keep = tracker
+            for tracker in holding:
+                if tracker is not keep:
+                    tracker.abort_some_buckets([shnum])
+        for tracker in trackers:
+            if tracker.buckets:
+                self.use_trackers.add(tracker)
+            else:
+                self.use_trackers.discard(tracker)
 
     def _handle_existing_response(self, res, tracker):
         """
